@@ -187,6 +187,7 @@ class WSStream:
         stream_id: int,
     ) -> None:
         self.app = app
+        self.access_logged = False
         self.app_put: Optional[Callable] = None
         self.buffer = WebsocketBuffer(config.websocket_max_message_size)
         self.client = client
@@ -272,9 +273,11 @@ class WSStream:
             if self.scope is not None and self.state in {
                 ASGIWebsocketState.HANDSHAKE,
                 ASGIWebsocketState.RESPONSE,
+                ASGIWebsocketState.HTTPCLOSED,
             }:
-                # Closed before the handshake was answered, nothing has been logged
-                await self.config.log.access(self.scope, None, time() - self.start_time)
+                # Closed before the handshake was answered (or whilst the
+                # answer was being sent), if so nothing has been logged
+                await self._log_access(None)
             if self.app_put is not None:
                 if self.state in {ASGIWebsocketState.HTTPCLOSED, ASGIWebsocketState.CLOSED}:
                     code = CloseReason.NORMAL_CLOSURE.value
@@ -380,9 +383,13 @@ class WSStream:
         await self.send(EndBody(stream_id=self.stream_id))
         if was_closed or not self.closed:
             # Otherwise closed whilst sending, which has been logged
-            await self.config.log.access(
-                self.scope, {"status": status_code, "headers": []}, time() - self.start_time
-            )
+            await self._log_access({"status": status_code, "headers": []})
+
+    async def _log_access(self, response: Optional[dict]) -> None:
+        # Exactly one record per request, whichever path gets here first
+        if not self.access_logged:
+            self.access_logged = True
+            await self.config.log.access(self.scope, response, time() - self.start_time)
 
     async def _send_wsproto_event(self, event: WSProtoEvent) -> None:
         try:
@@ -409,9 +416,7 @@ class WSStream:
             self.state = ASGIWebsocketState.HANDSHAKE
             self.handshake.accepted = False
             raise
-        await self.config.log.access(
-            self.scope, {"status": status_code, "headers": []}, time() - self.start_time
-        )
+        await self._log_access({"status": status_code, "headers": []})
         if self.config.websocket_ping_interval is not None:
             self.task_group.spawn(self._send_pings)
 
@@ -432,7 +437,7 @@ class WSStream:
         if not message.get("more_body", False):
             self.state = ASGIWebsocketState.HTTPCLOSED
             await self.send(EndBody(stream_id=self.stream_id))
-            await self.config.log.access(self.scope, self.response, time() - self.start_time)
+            await self._log_access(self.response)
 
     async def _send_pings(self) -> None:
         while not self.closed:
